@@ -13,7 +13,6 @@ import (
 	"strconv"
 	"strings"
 	"time"
-	"unicode/utf8"
 
 	"github.com/influxdata/kapacitor"
 	"github.com/influxdata/kapacitor/models"
@@ -24,8 +23,6 @@ import (
 )
 
 // ---- values ----
-
-var sawInvalidUTF8 bool
 
 func renderVal(v interface{}) string {
 	switch x := v.(type) {
@@ -39,9 +36,6 @@ func renderVal(v interface{}) string {
 	case float64:
 		return "f:" + kit.F64(x)
 	case string:
-		if !utf8.ValidString(x) {
-			sawInvalidUTF8 = true // the Lean side reads strings as UTF-8: such a case cannot be judged and is dropped
-		}
 		return "s:" + kit.Esc(x)
 	case time.Duration:
 		return "d:" + strconv.FormatInt(int64(x), 10)
@@ -307,7 +301,7 @@ func oracleLines(e *ex, bs []binding, seen map[string]bool, out *[]string) {
 				}
 			}
 		}
-	case e.kind == "F" && !nativeFn[e.op]:
+	case e.kind == "F" && oracleFn[e.op]:
 		args := []interface{}{}
 		toks := []string{}
 		for _, k := range e.kids {
@@ -326,8 +320,19 @@ func oracleLines(e *ex, bs []binding, seen map[string]bool, out *[]string) {
 	}
 }
 
-// functions the Lean model defines itself (everything else is an external call answered by libCall)
-var nativeFn = map[string]bool{"count": true, "sigma": true, "spread": true, "if": true, "isPresent": true}
+// oracleFn: the builtins whose VALUE the Lean model takes from the library (Kap.C04.Lib.oracleFns); everything else
+// the model defines itself. float/string/duration are oracle only for the argument types the model does not define
+// (decimal <-> float, duration parsing); extra oracle lines are harmless.
+var oracleFn = func() map[string]bool {
+	m := map[string]bool{}
+	for _, n := range strings.Fields(`acos acosh asin asinh atan atan2 atanh cbrt ceil cos cosh erf erfc exp exp2 expm1 floor gamma hypot
+		j0 j1 jn log log10 log1p log2 logb mod pow pow10 sin sinh sqrt tan tanh trunc y0 y1 yn
+		strContainsAny strIndexAny strLastIndexAny strToLower strToUpper strTrim strTrimLeft strTrimRight strTrimSpace
+		regexReplace unixNano minute hour weekday day month year humanBytes float string duration`) {
+		m[n] = true
+	}
+	return m
+}()
 
 type evalOp struct {
 	inst  int
@@ -575,10 +580,6 @@ func execCase(lines []string) (out []string) {
 }
 
 func emit(out *kit.Out, id string, lines []string) {
-	if sawInvalidUTF8 { // e.g. strSubstring cut a multi-byte character
-		sawInvalidUTF8 = false
-		return
-	}
 	out.Line("case", id)
 	for _, l := range lines {
 		out.Line(l)
@@ -671,7 +672,9 @@ func Run(args []string) int {
 		}
 		return 0
 	}
-	r := kit.NewRand(f.Seed)
+	// kit.NewRand(s+1) is kit.NewRand(s) advanced by one step (the state is seed*golden+c), so consecutive seeds would
+	// generate almost the same cases shifted by one: mix the seed first.
+	r := kit.NewRand(kit.NewRand(f.Seed).U64() ^ (f.Seed * 0xD6E8FEB86659FD93))
 	for i := 0; i < f.N; i++ {
 		emit(out, fmt.Sprintf("g%d", i), execCase(genCase(r.Fork(), i, f.Tier == "thorough")))
 		out.Flush()
